@@ -72,6 +72,10 @@ CHECKS.update({
                 note="Assumption: pgsim's rules are Postgres' semantics for exactly the constructs postgres.go uses; an unknown construct yields INCONCLUSIVE (exit 2). Outside the compared domain (documented dialect differences): text collation, LIKE escapes, tag keys containing '.', '[' or empty, SERIAL gaps."),
 })
 
+TIER_F = " Tier (f), front ends: generated well-formed requests of this property's operations are rendered to HTTP and to gRPC and must reach the kernel (stub) as the same request through the real gin handler and the real gRPC service methods, so that the fields the statement speaks about travel unchanged through both protocols."
+for _pid in ("C01", "C02", "C04", "C05", "C07", "C08", "C09", "C10", "C14"):
+    CHECKS[_pid]["text"] += TIER_F
+
 NOT_APPLICABLE = []
 
 ENGINES = [
